@@ -556,4 +556,210 @@ theorem flagsIn_union {t : Table w} (hs : t.Pairwise (fun a b => a.1 < b.1)) (se
       · rw [List.mem_filter]; simp [he, hsg, hsel]
       · rw [hei, twoPow_bit i i hi]; simp
 
+/-! ## any table: the loop is the `picks` statement -/
+
+theorem sub_rem_iff (x c v : BitVec w) :
+    (x &&& ~~~c) &&& v = v ↔ (x &&& v = v ∧ c &&& v = 0#w) := by
+  rw [sub_iff_bits, sub_iff_bits]
+  constructor
+  · intro h
+    refine ⟨fun i hv => ?_, ?_⟩
+    · have := h i hv
+      simp only [BitVec.getLsbD_and, Bool.and_eq_true] at this
+      exact this.1
+    · apply BitVec.eq_of_getLsbD_eq
+      intro i hi
+      simp only [BitVec.getLsbD_and, BitVec.getLsbD_zero]
+      cases hv : v.getLsbD i
+      · simp
+      · have := h i hv
+        simp only [BitVec.getLsbD_and, BitVec.getLsbD_not, hi, decide_true, Bool.true_and, Bool.and_eq_true,
+          Bool.not_eq_true'] at this
+        simp [this.2]
+  · rintro ⟨h1, h2⟩ i hv
+    have hi : i < w := by
+      apply Classical.byContradiction
+      intro hn
+      rw [BitVec.getLsbD_of_ge v i (by omega)] at hv
+      exact absurd hv (by simp)
+    have hc := congrArg (fun u => u.getLsbD i) h2
+    simp only [BitVec.getLsbD_and, hv, Bool.and_true, BitVec.getLsbD_zero] at hc
+    rw [BitVec.getLsbD_and, BitVec.getLsbD_not, h1 i hv, hc]; simp [hi]
+
+theorem remove_rem (x c v : BitVec w) : remove (x &&& ~~~c) v = x &&& ~~~(c ||| v) := by
+  unfold remove
+  ext i hi
+  simp only [BitVec.getElem_and, BitVec.getElem_not, BitVec.getElem_or]
+  cases x[i] <;> cases c[i] <;> cases v[i] <;> rfl
+
+theorem picks_nil_of_rem_zero (x : BitVec w) (l : Table w) (c : BitVec w) (h : x &&& ~~~c = 0#w) :
+    picks x l c = [] := by
+  induction l with
+  | nil => rfl
+  | cons e r ih =>
+    unfold picks
+    have : ¬ (e.1 ≠ 0 ∧ x &&& e.1 = e.1 ∧ c &&& e.1 = 0) := by
+      rintro ⟨hne, h1, h2⟩
+      apply hne
+      have := (sub_rem_iff x c e.1).mpr ⟨h1, h2⟩
+      rw [h] at this
+      simpa using this.symm
+    rw [if_neg this]; exact ih
+
+theorem orAll_cons (e : BitVec w × Name) (P : Table w) : orAll (e :: P) = e.1 ||| orAll P := rfl
+
+theorem loop_picks (x : BitVec w) (l : Table w) :
+    ∀ (c : BitVec w) (acc : List Name),
+      loop l (x &&& ~~~c) acc = (x &&& ~~~(c ||| orAll (picks x l c)), acc ++ (picks x l c).map (·.2)) := by
+  induction l with
+  | nil => intro c acc; simp [loop, picks, orAll]
+  | cons e rest ih =>
+    obtain ⟨v, n⟩ := e
+    intro c acc
+    unfold loop picks
+    by_cases hv0 : v = 0
+    · subst hv0
+      have hn : ¬ ((0 : BitVec w) ≠ 0 ∧ x &&& (0 : BitVec w) = 0 ∧ c &&& (0 : BitVec w) = 0) := by simp
+      simp only [↓reduceIte]
+      rw [if_neg hn]
+      exact ih c acc
+    · simp only [hv0, ↓reduceIte]
+      by_cases hr0 : x &&& ~~~c = 0
+      · have hp : picks x rest c = [] := picks_nil_of_rem_zero x rest c hr0
+        have hp2 : ¬ (v ≠ 0 ∧ x &&& v = v ∧ c &&& v = 0) := by
+          rintro ⟨hne, h1, h2⟩
+          apply hne
+          have := (sub_rem_iff x c v).mpr ⟨h1, h2⟩
+          rw [hr0] at this
+          simpa using this.symm
+        simp only [hr0, ↓reduceIte]
+        rw [if_neg hp2, hp]
+        simp [orAll, hr0]
+      · simp only [hr0, ↓reduceIte]
+        by_cases hh : has (x &&& ~~~c) v = true
+        · have hcond : v ≠ 0 ∧ x &&& v = v ∧ c &&& v = 0 := by
+            unfold has at hh
+            rw [beq_iff_eq] at hh
+            exact ⟨hv0, (sub_rem_iff x c v).mp hh⟩
+          simp only [hh, ↓reduceIte]
+          rw [if_pos hcond, remove_rem, ih (c ||| v) (acc ++ [n]), orAll_cons]
+          refine Prod.ext ?_ ?_
+          · simp only [BitVec.or_assoc]
+          · simp
+        · have hcond : ¬ (v ≠ 0 ∧ x &&& v = v ∧ c &&& v = 0) := by
+            rintro ⟨_, h1, h2⟩
+            apply hh
+            unfold has
+            rw [beq_iff_eq]
+            exact (sub_rem_iff x c v).mpr ⟨h1, h2⟩
+          have hh' : has (x &&& ~~~c) v = false := by simpa using hh
+          simp only [hh', Bool.false_eq_true, ↓reduceIte]
+          rw [if_neg hcond]
+          exact ih c acc
+
+theorem picks_props (x : BitVec w) (l : Table w) :
+    ∀ c : BitVec w, (∀ e ∈ picks x l c, e ∈ l ∧ e.1 ≠ 0 ∧ x &&& e.1 = e.1 ∧ c &&& e.1 = 0#w) ∧
+      (picks x l c).Pairwise (fun a b => a.1 &&& b.1 = 0#w) ∧ (picks x l c).Sublist l := by
+  induction l with
+  | nil => intro c; simp [picks]
+  | cons e rest ih =>
+    intro c
+    unfold picks
+    by_cases hcond : e.1 ≠ 0 ∧ x &&& e.1 = e.1 ∧ c &&& e.1 = 0
+    · rw [if_pos hcond]
+      obtain ⟨h1, h2, h3⟩ := ih (c ||| e.1)
+      have hsplit : ∀ b ∈ picks x rest (c ||| e.1), c &&& b.1 = 0#w ∧ e.1 &&& b.1 = 0#w := by
+        intro b hb
+        have hz := (h1 b hb).2.2.2
+        constructor
+        · apply BitVec.eq_of_getLsbD_eq
+          intro i hi
+          have := congrArg (fun u => u.getLsbD i) hz
+          simp only [BitVec.getLsbD_and, BitVec.getLsbD_or, BitVec.getLsbD_zero] at this ⊢
+          revert this; cases c.getLsbD i <;> cases e.1.getLsbD i <;> cases b.1.getLsbD i <;> simp
+        · apply BitVec.eq_of_getLsbD_eq
+          intro i hi
+          have := congrArg (fun u => u.getLsbD i) hz
+          simp only [BitVec.getLsbD_and, BitVec.getLsbD_or, BitVec.getLsbD_zero] at this ⊢
+          revert this; cases c.getLsbD i <;> cases e.1.getLsbD i <;> cases b.1.getLsbD i <;> simp
+      refine ⟨?_, ?_, ?_⟩
+      · intro b hb
+        rcases List.mem_cons.mp hb with rfl | hbr
+        · exact ⟨by simp, hcond.1, hcond.2.1, hcond.2.2⟩
+        · have := h1 b hbr
+          exact ⟨List.mem_cons_of_mem _ this.1, this.2.1, this.2.2.1, (hsplit b hbr).1⟩
+      · exact List.pairwise_cons.mpr ⟨fun b hb => (hsplit b hb).2, h2⟩
+      · exact List.Sublist.cons_cons e h3
+    · rw [if_neg hcond]
+      obtain ⟨h1, h2, h3⟩ := ih c
+      exact ⟨fun b hb => ⟨List.mem_cons_of_mem _ (h1 b hb).1, (h1 b hb).2⟩, h2, List.Sublist.cons e h3⟩
+
+theorem picks_sub (x : BitVec w) (l : Table w) (c : BitVec w) :
+    x &&& orAll (picks x l c) = orAll (picks x l c) := by
+  rw [sub_iff_bits]
+  intro i hi
+  rw [orAll_bit, List.any_eq_true] at hi
+  obtain ⟨e, he, hei⟩ := hi
+  exact (sub_iff_bits x e.1).mp ((picks_props x l c).1 e he).2.2.1 i hei
+
+/-- the emitted String() with -bit, on ANY table and every value, is the `picks` statement -/
+theorem string_eq_general (signed : Bool) (t : Table w) (x : BitVec w) :
+    string signed t x = specGeneral signed t x := by
+  unfold string specGeneral
+  rw [lookup_eq_find?, maxOf_eq_orAll]
+  cases hfind : t.find? (fun e => e.1 = x) with
+  | some e => simp
+  | none =>
+    simp only [Option.map_none]
+    by_cases hout : outside signed (orAll t) x = true
+    · simp only [hout, ↓reduceIte]
+    · have hout' : outside signed (orAll t) x = false := by simpa using hout
+      have hloop := loop_picks x t 0#w []
+      have hx : x &&& ~~~(0#w) = x := by
+        ext i hi; simp
+      have ho : (0#w ||| orAll (picks x t 0#w)) = orAll (picks x t 0#w) := by
+        ext i hi; simp
+      rw [hx, ho] at hloop
+      simp only [hout', Bool.false_eq_true, ↓reduceIte, hloop, List.nil_append]
+      have hz := rem_zero_iff x _ (picks_sub x t 0#w)
+      by_cases hc : picks x t 0#w ≠ [] ∧ orAll (picks x t 0#w) = x
+      · have h1 : x &&& ~~~orAll (picks x t 0#w) = 0 := hz.mpr hc.2
+        have h2 : List.map (fun e => e.2) (picks x t 0#w) ≠ [] := by simpa using hc.1
+        rw [if_pos ⟨h1, h2⟩, if_pos hc]
+      · have : ¬ (x &&& ~~~orAll (picks x t 0#w) = 0 ∧ List.map (fun e => e.2) (picks x t 0#w) ≠ []) := by
+          rintro ⟨h1, h2⟩
+          exact hc ⟨by simpa using h2, hz.mp h1⟩
+        rw [if_neg this, if_neg hc]
+
+/-- with a flag on the sign bit of a signed type `_max` is negative: every undeclared value is outside -/
+theorem outside_of_signbit (mx x : BitVec w) (hm : mx.msb = true) : outside true mx x = true := by
+  unfold outside
+  simp only [↓reduceIte, Bool.or_eq_true]
+  by_cases hx : x.msb = true
+  · left; rw [slt_zero]; exact hx
+  · right
+    have hx' : x.msb = false := by simpa using hx
+    rw [BitVec.slt_eq_ult, hm, hx']
+    have : mx.ult x = false := by
+      cases h : mx.ult x
+      · rfl
+      · rw [BitVec.ult_iff_lt, BitVec.lt_def] at h
+        rw [BitVec.msb_eq_decide] at hm hx'
+        simp only [decide_eq_true_eq, decide_eq_false_iff_not] at hm hx'
+        omega
+    rw [this]; rfl
+
+theorem inj_of_nodup_names (t : Table w) (h : (t.map (·.2)).Nodup) :
+    ∀ a ∈ t, ∀ b ∈ t, a.2 = b.2 → a = b := by
+  induction t with
+  | nil => intro a ha; simp at ha
+  | cons e r ih =>
+    have hn : e.2 ∉ r.map (·.2) ∧ (r.map (·.2)).Nodup := List.nodup_cons.mp (by rw [List.map_cons] at h; exact h)
+    intro a ha b hb hab
+    rcases List.mem_cons.mp ha with rfl | har <;> rcases List.mem_cons.mp hb with rfl | hbr
+    · rfl
+    · exact absurd (hab ▸ List.mem_map_of_mem hbr : a.2 ∈ r.map (·.2)) hn.1
+    · exact absurd (hab ▸ List.mem_map_of_mem har : b.2 ∈ r.map (·.2)) hn.1
+    · exact ih hn.2 a har b hbr hab
+
 end ShootVerif.Enum.Bit
